@@ -1,4 +1,5 @@
 import Gaftools.Drv.Sort
+import Gaftools.Drv.Gaf
 /-! The correspondence driver: one JSON object per line in, one per line out. -/
 open Lean Gaftools.Drv
 
@@ -7,6 +8,10 @@ def dispatch (op : String) (j : Json) : Except String Json :=
   | "sort.cmp" => Sort.opCmp j
   | "sort.process" => Sort.opProcess j
   | "sort.file" => Sort.opFile j
+  | "gaf.print_parse" => Gaf.opPrintParse j
+  | "gaf.parse" => Gaf.opParse j
+  | "phase.file" => Gaf.opPhase j
+  | "stat.run" => Gaf.opStat j
   | _ => throw s!"unknown op {op}"
 
 partial def loop (h : IO.FS.Stream) (out : IO.FS.Stream) : IO Unit := do
